@@ -859,7 +859,7 @@ func (s *State) evalIdentifier(node *ast.Identifier) object.Object {
 }
 
 func (s *State) evalIfExpression(ie *ast.IfExpression) object.Object {
-	condition := s.evalInternal(ie.Condition)
+	condition := object.Value(s.evalInternal(ie.Condition)) // deref: the condition may be a reference to an outer variable.
 	switch condition {
 	case object.TRUE:
 		if log.LogVerbose() {
@@ -1053,7 +1053,7 @@ func (s *State) evalForExpression(fe *ast.ForExpression) object.Object {
 	var lastEval object.Object
 	lastEval = object.NULL
 	for {
-		condition := s.evalInternal(fe.Condition)
+		condition := object.Value(s.evalInternal(fe.Condition)) // deref, like if.
 		switch condition {
 		case object.TRUE:
 			if log.LogVerbose() {
